@@ -40,6 +40,8 @@ def lex_has(lex, kinds):
         return any(lex_has(p, kinds) for p in lex[1])
     if lex[0] == 'joined':
         return lex_has(lex[1], kinds) or any(lex_has(p, kinds) for p in lex[2])
+    if lex[0] == 'rep':
+        return lex_has(lex[1], kinds)
     if lex[0] == 'minus':
         return lex_has(lex[1], kinds)
     return False
@@ -50,6 +52,8 @@ def lex_depth(lex):
         return 1 + max([lex_depth(p) for p in lex[1]] or [0])
     if lex[0] == 'joined':
         return 1 + max([lex_depth(p) for p in lex[2]] or [0])
+    if lex[0] == 'rep':
+        return 1 + lex_depth(lex[1])
     if lex[0] == 'minus':
         return lex_depth(lex[1])
     return 0
@@ -109,6 +113,8 @@ def no_linebreak(lex):
         return all(no_linebreak(p) for p in lex[1])
     if k == 'joined':
         return no_linebreak(lex[1]) and all(no_linebreak(p) for p in lex[2])
+    if k == 'rep':
+        return no_linebreak(lex[1])
     if k == 'minus':
         return no_linebreak(lex[1])
     if k == 're':
@@ -142,6 +148,16 @@ class Flow:
         tgt = self.pts[node]
         for v, src in vals.items():
             if v not in tgt:
+                if v[0] == 'str' and v[1][0] in ('cat', 'joined', 'rep'):
+                    # widening: a variable that keeps receiving new composite strings (x = x + ...) converges
+                    nstr = len([1 for w in tgt if w[0] == 'str' and w[1][0] in ('cat', 'joined', 'rep')])
+                    if nstr >= 24:
+                        lex = v[1]
+                        w = ('any', 'widened') if not no_linebreak(lex) else (
+                            ('ambient', 'widened') if lex_has(lex, ('ambient', 'objrepr')) else ('noline',))
+                        v = ('str', w)
+                        if v in tgt:
+                            continue
                 tgt[v] = (src, note)
                 self.changed = True
 
@@ -543,6 +559,10 @@ class Flow:
             if e.value is not None and isinstance(f, FuncInfo):
                 self.add(('Y', f.qname), self.ev(f, e.value, env), 'yield')
             return {NONE: None}
+        if isinstance(e, ast.YieldFrom):
+            if isinstance(f, FuncInfo):
+                self.add(('Y', f.qname), self.elements(self.ev(f, e.value, env)), 'yield from')
+            return {NONE: None}
         if isinstance(e, ast.Starred):
             return self.ev(f, e.value, env)
         if isinstance(e, ast.Slice):
@@ -728,11 +748,7 @@ class Flow:
         if isinstance(e.op, ast.Mult):
             for v in l:
                 if v[0] == 'str':
-                    from .lexclass import regex_of
-                    try:
-                        out[S(('re', '(?:%s)*' % regex_of(v[1])))] = None
-                    except ValueError:
-                        out[S(('any', 'repeated string'))] = None
+                    out[S(('rep', widen(v[1])))] = None
                 elif v[0] in ('list',):
                     out[v] = None
             if not out:
@@ -826,7 +842,10 @@ class Flow:
             self.add(('E', site), extra, 'extra positional arguments')
             self.add(('L', callee.qname, a.vararg.arg), {('tuple', site): None}, 'varargs')
         if callee.is_generator and not callee.is_contextmanager:
-            return {('ext', 'generator'): None}
+            site = ('list', callee.module.name, callee.node.lineno, -2)
+            self.maybe_empty_sites.add(site)
+            self.add(('E', site), self.get(('Y', callee.qname)), 'yielded by %s' % callee.name)
+            return {('list', site): None}
         return self.get(('R', callee.qname))
 
     def _call(self, f, e, env):
